@@ -58,11 +58,15 @@ impl<I: Interner> SpecializationPriorities<I> {
         self.map[&impl_id]
     }
 
-    /// Store the priority of an impl (used during construction).
-    /// Panics if we have already stored the priority for this impl.
+    /// Store the priority of an impl (used during construction). An impl
+    /// that is reachable along several specialization paths (e.g. it
+    /// specializes two impls, one of which specializes the other) keeps the
+    /// highest priority, so that it outranks every impl it specializes.
     fn insert(&mut self, impl_id: ImplId<I>, p: SpecializationPriority) {
-        let old_value = self.map.insert(impl_id, p);
-        assert!(old_value.is_none());
+        let entry = self.map.entry(impl_id).or_insert(p);
+        if *entry < p {
+            *entry = p;
+        }
     }
 }
 
